@@ -80,22 +80,25 @@ Section Machine.
                                                                disjoint from all the light of w)
                                     |  w = w * c(..., ptype=p) (po = Some p: the documented ptype
                                                                override of a class constructor)
+                                       (mism = true: plane and wavefront both carry a pixel scale
+                                                               and the two differ)
        w = propagate_dft(w, ...) / propagate_fft(w, ...)
        w = <another wavefront, in state s>                     (the planes of the program live on) *)
-  Inductive op := MulType (p : ptype) (clip : bool) | MulClass (c : C) (po : option ptype) (clip : bool)
+  Inductive op := MulType (p : ptype) (clip mism : bool)
+                | MulClass (c : C) (po : option ptype) (clip mism : bool)
                 | Propagate (m : method) | Fresh (s : wstate).
 
   (* a transition system: what each kind of step does to a wavefront in a given state *)
   Record machine := {
-    m_mul : wstate -> ptype -> bool -> outcome;      (* Plane(ptype=p).multiply(w) *)
-    m_class : C -> option ptype -> bool -> wstate -> outcome;   (* c(..., [ptype=p]).multiply(w) *)
+    m_mul : wstate -> ptype -> bool -> bool -> outcome;      (* Plane(ptype=p).multiply(w) *)
+    m_class : C -> option ptype -> bool -> bool -> wstate -> outcome;   (* c(..., [ptype=p]).multiply(w) *)
     m_prop : method -> wstate -> outcome             (* propagate_<m>(w, ...) *)
   }.
 
   Definition step (M : machine) (s : wstate) (o : op) : outcome :=
     match o with
-    | MulType p clip => m_mul M s p clip
-    | MulClass c po clip => m_class M c po clip s
+    | MulType p clip mism => m_mul M s p clip mism
+    | MulClass c po clip mism => m_class M c po clip mism s
     | Propagate m => m_prop M m s
     | Fresh s' => Yields s'
     end.
@@ -137,17 +140,28 @@ Section Machine.
                          that carries tilt, whatever its type; read off the code by the generator,
                          the direct oracle of the harness accepts either value.
      Types, acceptance, exception class and the state kept by a refused step come from the
-     documentation alone - for every content, the empty one included. *)
+     documentation alone - for every content, the empty one included.
+
+     Inconsistent sampling ([mism]): a cell the table forbids is a TypeError whatever the sampling.
+     What a PERMITTED product of differently sampled operands does (lentil refuses it with
+     ValueError) is not a plane-type rule (property C07 speaks about it): there the documented
+     machine repeats the implementation. *)
   Definition doc_type_outcome (s : wstate) (d : option wtype) (b : content) : outcome :=
     match d with Some t => Yields (St t b) | None => Raises ETypeError s end.
+
+  Definition doc_mul_outcome (s : wstate) (d : option wtype) (mism : bool) (x : outcome) : outcome :=
+    match d with
+    | None => Raises ETypeError s
+    | Some t => if mism then x else Yields (St t (body (next x)))
+    end.
 
   Definition doc_machine (dmul : wtype -> ptype -> option wtype)
              (dprop : method -> wtype -> option wtype)
              (cls_ptype : C -> option ptype -> ptype) (impl : machine) (fft_refuses_tilt : bool) : machine :=
-    {| m_mul := fun s p clip =>
-         doc_type_outcome s (dmul (ty s) p) (body (next (m_mul impl s p clip)));
-       m_class := fun c po clip s =>
-         doc_type_outcome s (dmul (ty s) (cls_ptype c po)) (body (next (m_class impl c po clip s)));
+    {| m_mul := fun s p clip mism =>
+         doc_mul_outcome s (dmul (ty s) p) mism (m_mul impl s p clip mism);
+       m_class := fun c po clip mism s =>
+         doc_mul_outcome s (dmul (ty s) (cls_ptype c po)) mism (m_class impl c po clip mism s);
        m_prop := fun m s =>
          match m with
          | Fft => if tilted s && fft_refuses_tilt then Raises ENotImplementedError s
@@ -156,12 +170,12 @@ Section Machine.
          end |}.
 End Machine.
 
-Arguments MulType {C} p clip.
-Arguments MulClass {C} c po clip.
+Arguments MulType {C} p clip mism.
+Arguments MulClass {C} c po clip mism.
 Arguments Fresh {C} s.
 Arguments Propagate {C} m.
-Arguments m_mul {C} m _ _ _.
-Arguments m_class {C} m _ _ _ _.
+Arguments m_mul {C} m _ _ _ _.
+Arguments m_class {C} m _ _ _ _ _.
 Arguments m_prop {C} m _ _.
 Arguments step {C} M s o.
 Arguments run_program {C} M s ops.
